@@ -494,7 +494,7 @@ def epc_parse(data):
     return f, problems
 
 
-def epc_one(kw, acc, expect_refusal=False, symbol=True, may_refuse=False):
+def epc_one(kw, acc, expect_refusal=False, symbol=True, may_refuse=False, must_accept=False):
     case = ('epc1', {k: (str(v) if isinstance(v, decimal.Decimal) else v) for k, v in kw.items()}, expect_refusal)
     try:
         data = helpers._make_epc_qr_data(**kw)
@@ -514,7 +514,7 @@ def epc_one(kw, acc, expect_refusal=False, symbol=True, may_refuse=False):
         if may_refuse and isinstance(exc, ValueError):
             acc.count('epc_unencodable_refused')
             return
-        if not (isinstance(exc, ValueError) and 'too big' in str(exc)):
+        if must_accept or not (isinstance(exc, ValueError) and 'too big' in str(exc)):
             acc.violation('epc-refused-valid', '_make_epc_qr_data(**%r) raised %s: %s' % (kw, C.exc_name(exc), str(exc)[:80]), case)
         return
     f, problems = epc_parse(data)
@@ -606,7 +606,7 @@ def epc_case(acc):
                 break
         if found:
             found['encoding'] = 'utf-8'
-            epc_one(found, acc, expect_refusal=(target > 331), symbol=True)
+            epc_one(found, acc, expect_refusal=(target > 331), symbol=True, must_accept=(target <= 331))
             acc.count('epc_byte_limit_cases')
     # one-character fields, a geographic position given only half
     for extra in (dict(name='n'), dict(text='t'), dict(text=None, reference='r'), dict(name='n', text='t', bic='BFSWDE33')):
